@@ -202,12 +202,14 @@ def sanitizer_report(V, run, sp, h):
     V.add_violation(kind, '%s build of %s: %s' % (sp['variant'], sp['cfg'], first or ('terminated abnormally rc=%s: %s' % (run['rc'], se[-600:]))),
                     dict(kind='fsmx', config=sp['cfg'], defs=CONFIGS[sp['cfg']], variant=sp['variant'], header=h, replay=m.group(1) if m else '', props=['C18'], flags=[], stderr=se[-3000:]))
 
+POST_HOOKS = {}    # prop -> fn(V, tier): public-API probes that complement the explorer runs (registered by vfchecks_more)
 def fsmx_check(prop, tier):
     V = Verdict(prop, tier)
     V.assumptions = ['callbacks take at most one action per invocation (two for cancel+redirect); at most dev_bound non-default decisions per API call',
                      'histories respect the asserted preconditions of the library (DESIGN.md 4.3)',
                      'the canonical state key covers every named field of CoreT (checked indirectly: every state is re-derived from its witness history on a fresh instance)']
     run_specs(V, SPECS[prop][tier], tier)
+    if prop in POST_HOOKS: POST_HOOKS[prop](V, tier)
     return V.finish(rule='breadth-first closure over canonical machine states; from each state every in-contract API call x every vector of callback decisions with at most dev_bound deviations is executed on the real code; a trace shape is the sequence of (event kind, state, method)')
 
 # --------------------------------------------------------------------------- custom checks are registered by the modules below
